@@ -128,6 +128,30 @@ def r05_2(ctx, which, rule):
                '%s <- %s' % (want, ast.unparse(bound[want]) if want in bound else '?'))
 
 
+def scan_period(ctx, rule):
+    """"within about one scan period" / "soft before hard": limits are per job, so the period between two scans is a
+    small constant that does not depend on the pool's default limits (a job can carry shorter ones)."""
+    ctx.rule(rule, 'the scanner thread sleeps a constant of at most one second between two scans', floor=1)
+    m = ctx.model
+    fi = m.func('pool:TimeoutHandler.body')
+    sl = [(n, c) for (n, c) in q.calls(fi, 'time.sleep')]
+    q.need(sl, 'TimeoutHandler.body does not pause between scans')
+    for (n, c) in sl:
+        a = c.args[0] if c.args else None
+        v = a.value if isinstance(a, ast.Constant) else None
+        if v is None and isinstance(a, ast.Name):
+            try:
+                v = q.const_of(fi, a)
+            except Exception:
+                v = None
+        ok = isinstance(v, (int, float)) and 0 < v <= 1.0
+        ctx.ob(rule, 'TimeoutHandler.body:scan-period-is-a-small-constant', ok, fi, c,
+               'time.sleep(%s) between scans' % v if ok else
+               'the pause between scans is `%s`, not a constant <= 1 s: a job whose own limits are shorter than the '
+               'pause is noticed late, and its soft limit can be skipped altogether (the scan tests the hard limit '
+               'first)' % ast.unparse(a))
+
+
 def r05_3(ctx, rule):
     ctx.rule(rule, '_timed_out is falsy whenever start or limit is falsy and truthy only when '
                    'now - start - limit >= 0', floor=2)
